@@ -173,6 +173,100 @@ def build_molecule(spec):
     return SecondQuantizedMolecule(spec["xyz"], q=spec.get("q", 0), spin=spec["spin"], basis="sto-3g", frozen_orbitals=spec.get("frozen"))
 
 
+def _tap_state(tap):
+    """Everything a QubitTapering object keeps: it must not change when operators it handed out are modified."""
+    t = tap.z2_tapered_op
+    u = tap.z2_properties["unitary"]
+    i = tap.initial_op
+    return {"tapered.terms": dict(t.terms), "tapered.integer": np.array(t.integer).copy(), "tapered.factors": np.array(t.factors).copy(),
+            "unitary.terms": dict(u.terms), "unitary.integer": np.array(u.integer).copy(), "unitary.factors": np.array(u.factors).copy(),
+            "eigenvalues": np.array(tap.z2_properties["eigenvalues"]).copy(), "n_symmetries": tap.z2_properties["n_symmetries"],
+            "initial.terms": dict(i.terms), "initial.integer": np.array(i.integer).copy()}
+
+
+def _state_diff(a, b):
+    for key in a:
+        x, y = a[key], b[key]
+        if isinstance(x, dict):
+            if set(x) != set(y) or any(abs(complex(x[t]) - complex(y[t])) > 1e-12 for t in x):
+                return key
+        elif isinstance(x, np.ndarray):
+            if x.shape != np.shape(y) or not np.array_equal(x, y):
+                return key
+        elif x != y:
+            return key
+    return None
+
+
+def _same_op(a, b, tol=1e-9):
+    ka = {t for t, c in a.terms.items() if abs(c) > tol}
+    kb = {t for t, c in b.terms.items() if abs(c) > tol}
+    return ka == kb and all(abs(complex(a.terms[t]) - complex(b.terms[t])) <= tol for t in ka)
+
+
+def taper_history(chk, tap, qh, Xq, n, case):
+    """One QubitTapering object, several requests: the operators it hands out are modified IN PLACE and requested again.
+    Returns pristine snapshots of the first copies and the later copies (judged by TLC as well)."""
+    from tangelo.toolboxes.operators import QubitOperator
+
+    def scribble(op, a, b):
+        op *= a
+        op -= QubitOperator((), b)
+        for t in list(op.terms)[:1]:
+            op -= QubitOperator(t, op.terms[t])          # remove one term entirely
+        op += QubitOperator(((0, "Y"),), 0.625)
+
+    def unchanged(what, s0, arg=None, arg0=None):
+        dkey = _state_diff(s0, _tap_state(tap))
+        if dkey:
+            viol(chk, "QubitTapering:history:internal-state-changed:%s" % dkey.split(".")[0],
+                 "%s changed %s of the tapering object" % (what, dkey), case)
+        if arg is not None and dict(arg.terms) != arg0:
+            viol(chk, "QubitTapering:history:argument-changed", "%s modified the operator passed in" % what, case)
+
+    s0 = _tap_state(tap)
+    qh0 = dict(qh.terms)
+    T1 = tap.z2_tapered_op.qubitoperator
+    T1snap = copy.deepcopy(T1)
+    TX1 = TX1snap = None
+    if Xq is not None:
+        x0 = dict(Xq.terms)
+        TX1 = tap.z2_tapering(Xq, n_qubits=n)
+        TX1snap = copy.deepcopy(TX1)
+        unchanged("z2_tapering(X)", s0, Xq, x0)
+    scribble(T1, 3.0, 0.5)
+    unchanged("in-place arithmetic on z2_tapered_op.qubitoperator", s0)
+    if TX1 is not None:
+        scribble(TX1, -2.0, 1.0)
+        unchanged("in-place arithmetic on the operator returned by z2_tapering", s0)
+        other = 0.5 * qh + Xq
+        o0 = dict(other.terms)
+        tap.z2_tapering(other, n_qubits=n)                 # an unrelated request between the two
+        unchanged("z2_tapering(another operator)", s0, other, o0)
+    T2 = tap.z2_tapered_op.qubitoperator
+    TH = tap.z2_tapering(qh, n_qubits=n)
+    unchanged("z2_tapering(H)", s0, qh, qh0)
+    TA, TXA = [copy.deepcopy(T2), copy.deepcopy(TH)], []
+    if T2 is T1:
+        viol(chk, "QubitTapering:history:same-object-returned-twice", "z2_tapered_op.qubitoperator returned the object handed out before", case)
+    if not _same_op(T2, T1snap, 1e-12):
+        viol(chk, "QubitTapering:history:second-copy-differs:z2_tapered_op.qubitoperator",
+             "the tapered operator requested after the first copy was modified in place differs from the first request", case)
+    if not _same_op(TH, T1snap):
+        viol(chk, "QubitTapering:history:second-copy-differs:z2_tapering(H)", "z2_tapering(H) differs from z2_tapered_op", case)
+    if TX1 is not None:
+        TX2 = tap.z2_tapering(Xq, n_qubits=n)
+        TXA.append(copy.deepcopy(TX2))
+        if not _same_op(TX2, TX1snap, 1e-12):
+            viol(chk, "QubitTapering:history:second-copy-differs:z2_tapering(X)", "z2_tapering(X) requested twice gives different operators", case)
+    scribble(T2, -1.0, 2.0)
+    T3 = tap.z2_tapered_op.qubitoperator
+    if not _same_op(T3, T1snap, 1e-12):
+        viol(chk, "QubitTapering:history:second-copy-differs:z2_tapered_op.qubitoperator", "third request differs from the first", case)
+    unchanged("the whole request history", s0)
+    return {"T1": T1snap, "TX1": TX1snap, "TA": TA, "TXA": TXA}
+
+
 def taper_record(chk, jid, spec, mapping, utd, structure=False):
     """Runs the code; returns (job, extra) or None after reporting an exception."""
     from tangelo.toolboxes.operators import FermionOperator, QubitOperator
@@ -201,7 +295,6 @@ def taper_record(chk, jid, spec, mapping, utd, structure=False):
     sg = [TINT[int(c.integer[0][q])] for c, q in zip(cliffords, q_idx)]
     U = tap.z2_properties["unitary"]
     eps = [int(round(float(np.real(x)))) for x in tap.z2_properties["eigenvalues"]][:k]
-    T = tap.z2_tapered_op.qubitoperator
     # the encoded parities 1 - 2 n_p (trusted base: the encodings themselves are the subject of C03)
     W = []
     for p in range(nso):
@@ -217,10 +310,13 @@ def taper_record(chk, jid, spec, mapping, utd, structure=False):
     Xq = fermion_to_qubit_mapping(x_f, mapping, n_spinorbitals=nso, n_electrons=ne, up_then_down=utd, spin=spin)
     has_x = True
     try:
-        TX = tap.z2_tapering(Xq, n_qubits=n)
+        hist = taper_history(chk, tap, qh, Xq, n, case)
+        T, TX = hist["T1"], hist["TX1"]
     except Exception as e:      # noqa: BLE001
-        viol(chk, "z2_tapering:raised:%s" % type(e).__name__, "z2_tapering(other operator) raised %s: %s" % (type(e).__name__, str(e)[:150]), case)
+        viol(chk, "z2_tapering:raised:%s" % type(e).__name__, "request history (z2_tapered_op / z2_tapering) raised %s: %s" % (type(e).__name__, str(e)[:150]), case)
         has_x, TX = False, QubitOperator()
+        T = tap.z2_tapered_op.qubitoperator
+        hist = {"TA": [], "TXA": []}
     if structure:
         Hj = [{"w": word_of_term(t, n), "c": ONE} for t in qh.terms]
         Tj = []
@@ -235,8 +331,10 @@ def taper_record(chk, jid, spec, mapping, utd, structure=False):
         Uj.append({"w": w, "c": e})
     job = {"id": jid, "n": n, "k": k, "nso": nso, "na": (ne + spin) // 2, "nb": (ne - spin) // 2, "H": Hj, "S": S,
            "q": [int(x) for x in q_idx], "sg": sg, "U": Uj, "eps": eps, "T": Tj,
-           "X": op_json(Xq, n), "TX": op_json(TX, n - k) if has_x else [], "has_x": has_x, "W": W, "structure": structure, "has_f": True}
-    extra = {"case": case, "qh": qh, "T": T, "fh": fh, "nso": nso, "ne": ne, "spin": spin, "k": k, "hterms": list(qh.terms.items())}
+           "X": op_json(Xq, n), "TX": op_json(TX, n - k) if has_x else [], "has_x": has_x, "W": W, "structure": structure, "has_f": True,
+           "TA": [] if structure else [op_json(o, n - k) for o in hist["TA"]],
+           "TXA": [op_json(o, n - k) for o in hist["TXA"]] if has_x else []}
+    extra = {"case": case, "qh": qh, "T": T, "later": hist["TA"], "fh": fh, "nso": nso, "ne": ne, "spin": spin, "k": k, "hterms": list(qh.terms.items())}
     return job, extra
 
 
@@ -278,15 +376,19 @@ def handwritten_record(chk, jid, name):
     sg = [TINT[int(c.integer[0][q])] for c, q in zip(cliffords, q_idx)]
     Uj = [{"w": w, "c": to_ring8(f)} for w, f in mf_rows(tap.z2_properties["unitary"])]
     eps = [int(round(float(np.real(x)))) for x in tap.z2_properties["eigenvalues"]][:k]
-    T = tap.z2_tapered_op.qubitoperator
+    hist = taper_history(chk, tap, qh, None, n, case)
+    T = hist["T1"]
     job = {"id": jid, "n": n, "k": k, "nso": 0, "na": 0, "nb": 0, "H": op_json(qh, n), "S": S, "q": [int(x) for x in q_idx], "sg": sg,
-           "U": Uj, "eps": eps, "T": op_json(T, n - k), "X": [], "TX": [], "has_x": False, "W": [], "structure": False, "has_f": False}
-    extra = {"case": case, "qh": qh, "T": T, "fh": None, "nso": 0, "ne": 0, "spin": 0, "k": k, "hterms": list(qh.terms.items())}
+           "U": Uj, "eps": eps, "T": op_json(T, n - k), "X": [], "TX": [], "has_x": False, "W": [], "structure": False, "has_f": False,
+           "TA": [op_json(o, n - k) for o in hist["TA"]], "TXA": []}
+    extra = {"case": case, "qh": qh, "T": T, "later": hist["TA"], "fh": None, "nso": 0, "ne": 0, "spin": 0, "k": k, "hterms": list(qh.terms.items())}
     return job, extra
 
 
+TAPER_FAIL = 1 | 2 | 4 | 8 | 16 | 32 | 128 | 512 | 1024          # 256 is information, 64 malformed
 TAPER_BITS = [(1, "symmetry-does-not-commute"), (2, "U-not-unitary"), (4, "U-S-Udg-not-single-qubit"), (8, "rotated-term-not-diagonal-on-q"),
-              (16, "tapered-operator-differs"), (32, "sector-eigenvalue-wrong"), (128, "z2_tapering-other-operator-differs")]
+              (16, "tapered-operator-differs"), (32, "sector-eigenvalue-wrong"), (128, "z2_tapering-other-operator-differs"),
+              (512, "history:later-copy-of-tapered-operator-fails-certificate"), (1024, "history:later-z2_tapering(X)-fails-certificate")]
 
 
 def sector_min(fh, nso, na, nb):
@@ -315,12 +417,12 @@ def numeric_tail(chk, job, extra, verdict):
     eT = np.linalg.eigvalsh(qubit_operator_sparse(extra["T"], n - k).toarray()) if n - k > 0 else np.array([np.real(extra["T"].terms.get((), 0.))])
     contained = all(np.min(np.abs(eH - x)) < 1e-8 for x in eT)
     if extra["fh"] is None:          # hand-written qubit Hamiltonian: containment only
-        if (verdict % 256) == 0 and not contained:
+        if (verdict & TAPER_FAIL) == 0 and not contained:
             raise tlc.TLCError("certificate accepted by TLC but eigvalsh finds an eigenvalue of T outside spec(H): %s" % extra["case"])
         return
     emin = sector_min(extra["fh"], extra["nso"], job["na"], job["nb"])
     retained = float(np.min(np.abs(eT - emin))) < 1e-8     # the sector minimum is AN eigenvalue of T (T also holds other sectors of equal parities)
-    cert_ok = (verdict % 256) == 0
+    cert_ok = (verdict & TAPER_FAIL) == 0
     strong = (verdict & 256) == 0
     d = chk.cov["parts"].setdefault("taper_numeric_tail", {"cases": 0, "contained": 0, "sector_min_retained": 0,
                                                            "extra_symmetry_cases": 0, "extra_symmetry_min_lost": 0})
@@ -381,9 +483,9 @@ def taper_negative_controls(jobs):
     ctl = []
     base = 10 ** 7
     for j in jobs:
-        if j["structure"] or j["k"] == 0 or not j["T"] or len(ctl) >= 10:
+        if j["structure"] or j["k"] == 0 or not j["T"] or len(ctl) >= 12:
             continue
-        for field, bit in (("eps", 16 | 32), ("T", 16), ("S", 1 | 4 | 32), ("U", 2 | 4 | 8 | 16), ("sg", 4 | 8)):
+        for field, bit in (("eps", 16 | 32), ("T", 16), ("S", 1 | 4 | 32), ("U", 2 | 4 | 8 | 16), ("sg", 4 | 8), ("TA", 512)):
             c = copy.deepcopy(j)
             c["id"] = base + len(ctl)
             if field == "eps":
@@ -399,6 +501,10 @@ def taper_negative_controls(jobs):
                     continue
             elif field == "sg":
                 c["sg"][0] = 1 + (c["sg"][0] % 3)
+            elif field == "TA":
+                if not c["TA"] or not c["TA"][0]:
+                    continue
+                c["TA"][0][0]["c"] = {"c": [3 * x for x in c["TA"][0][0]["c"]["c"]], "k": c["TA"][0][0]["c"]["k"]}   # a scaled later copy
             c["_expect"] = bit
             ctl.append(c)
     return ctl
@@ -431,7 +537,7 @@ def run_taper(chk, rng):
         return
     verdicts, results = tlc.judge("C14Taper", jobs, WD + "/taper", {"M": M}, max_parallel=6 if chk.quick else 12, timeout=7200, heap="6g")
     # negative controls are corrupted copies of records that CONFORM (second batch)
-    ctl = taper_negative_controls([j for j in jobs if verdicts[j["id"]] % 256 == 0])
+    ctl = taper_negative_controls([j for j in jobs if (verdicts[j["id"]] & TAPER_FAIL) == 0])
     expect = {c["id"]: c.pop("_expect") for c in ctl}
     if ctl:
         vc, rc = tlc.judge("C14Taper", ctl, WD + "/taper_ctl", {"M": M}, max_parallel=4, timeout=7200, heap="6g")
@@ -451,12 +557,12 @@ def run_taper(chk, rng):
             raise tlc.TLCError("malformed taper record %s" % ex["case"])
         if v & 256:
             n_extra += 1
-        if v % 256:
+        if v & TAPER_FAIL:
             nbad += 1
             for bit, name in TAPER_BITS:
                 if v & bit:
                     viol(chk, "QubitTapering:%s" % name, "TLC certificate bits %d for %s" % (v, ex["case"]), ex["case"])
-        if j["structure"] and (v % 256) == 0:
+        if j["structure"] and (v & TAPER_FAIL) == 0:
             # spec-structured contraction: TLC's words/signs x the code's float coefficients vs the code's tapered operator
             n_struct += 1
             want = {}
@@ -464,8 +570,10 @@ def run_taper(chk, rng):
                 sgn = complex(st["re"], st["im"]) / (2 ** st["k"])
                 key = tuple(st["tw"])
                 want[key] = want.get(key, 0) + sgn * c
-            got = {tuple(word_of_term(t, j["n"] - j["k"])): c for t, c in ex["T"].terms.items()}
-            err = max([abs(want.get(key, 0) - got.get(key, 0)) for key in set(want) | set(got)] + [0.])
+            err = 0.
+            for copy_i, top in enumerate([ex["T"]] + list(ex.get("later", []))):      # first request and the later requests
+                got = {tuple(word_of_term(t, j["n"] - j["k"])): c for t, c in top.terms.items()}
+                err = max([err] + [abs(want.get(key, 0) - got.get(key, 0)) for key in set(want) | set(got)])
             chk.part("taper_contraction", cases=n_struct)
             if err > 1e-9:
                 viol(chk, "QubitTapering:tapered-operator-differs:contraction", "max coefficient error %.3g for %s" % (err, ex["case"]), ex["case"])
@@ -571,6 +679,82 @@ def trim_negative_controls(jobs):
     return ctl
 
 
+# ------------------------------------------------------------------------------------------------------
+#  NUMERIC TAIL (not model-checked): angles next to the grid
+# ------------------------------------------------------------------------------------------------------
+NEAR_DELTAS = [s * d for d in (1e-7, 3e-6, 3e-5, 3e-4, 3e-3, 3e-2) for s in (1, -1)]
+DOC_ATOL = 1e-5          # documented: is_bitflip_gate(gate, atol=1e-5) "the absolute tolerance for gate parameter"
+
+
+def near_grid_tail(chk, circuits, rng):
+    """The exact engine lives on the 2pi/8 grid; the classification of a rotation as a bit flip has a documented angle
+    tolerance (atol = 1e-5 rad).  Off-grid, the trusted float oracle is the cirq backend: for a TLC-generated circuit with
+    one rotation angle moved by delta, whatever the code decides (trim or keep),
+        | <psi|op|psi>(original, perturbed)  -  <psi'|op'|psi'>(trimmed pair) |  <=  2 * atol * ||op||_1 + 1e-9 .
+    Justification: a qubit left in cos(d/2)|b> -i sin(d/2)|1-b> instead of |b> changes a Pauli expectation by at most
+    |sin d| <= |d| (X, Y) resp. 1 - cos d (Z); the code may only ignore d when |d| <= atol, so each term moves by at most
+    |c_w| * atol; the factor 2 is slack for second order / two perturbed letters of one word."""
+    import inspect
+    from tangelo.linq import Circuit, get_backend
+    from tangelo.toolboxes.operators import QubitOperator
+    from tangelo.toolboxes.operators.trim_trivial_qubits import trim_trivial_qubits, is_bitflip_gate
+    from ring import k_to_angle
+    atol = inspect.signature(is_bitflip_gate).parameters["atol"].default
+    if atol != DOC_ATOL:
+        chk.spec_drift("is_bitflip_gate's documented default tolerance is now %r (was %r): the numeric tail uses the new value" % (atol, DOC_ATOL))
+    sim = get_backend("cirq")
+    cand = [c for c in circuits if any(g["name"] in ("RX", "RY", "RZ") and not g["c"] for g in c["gates"])]
+    cand = rng.sample(cand, min(len(cand), 40 if chk.quick else 400))
+    stats = {"circuits": 0, "perturbed_runs": 0, "expectations_compared": 0, "max_excess_over_bound": 0.0, "max_error_over_norm1": 0.0,
+             "documented_atol": atol, "deltas": sorted(set(abs(d) for d in NEAR_DELTAS)), "oracle": "cirq statevector (trusted float)", "failures": 0}
+
+    def expval(op, circ):
+        if circ.width == 0 or not op.terms:
+            return complex(op.terms.get((), 0.)) if op.terms else 0j
+        return complex(sim.get_expectation_value(op, circ))
+
+    for circ in cand:
+        n = circ["n"]
+        stats["circuits"] += 1
+        rot = [i for i, g in enumerate(circ["gates"]) if g["name"] in ("RX", "RY", "RZ") and not g["c"]]
+        for gi in rot[:2]:
+            q = circ["gates"][gi]["t"][0]
+            ops = [QubitOperator(((q, l),), 1.0) for l in "XYZ"] + [trim_ops(n)[-1]]
+            for delta in NEAR_DELTAS:
+                def mk():
+                    gs = []
+                    for i, g in enumerate(circ["gates"]):
+                        gate = json_to_gate(g, M)
+                        if i == gi:
+                            gate.parameter = k_to_angle(g["k"], M) + delta
+                        gs.append(gate)
+                    return Circuit(gs, n_qubits=n)
+                stats["perturbed_runs"] += 1
+                for op in ops:
+                    case = {"kind": "trim-near-grid", "circ": circ, "gate": gi, "delta": delta, "op": [[list(map(list, t)), str(c)] for t, c in op.terms.items()]}
+                    try:
+                        e0 = expval(op, mk())
+                        op2, c2 = trim_trivial_qubits(copy.deepcopy(op), mk())
+                        e1 = expval(op2, c2)
+                    except Exception as e:      # noqa: BLE001
+                        viol(chk, "trim_trivial_qubits:near-grid-angle:raised:%s" % type(e).__name__, "delta=%g: %s" % (delta, str(e)[:120]), case)
+                        stats["failures"] += 1
+                        continue
+                    norm1 = sum(abs(c) for c in op.terms.values())
+                    err = abs(e0 - e1)
+                    bound = 2 * atol * norm1 + 1e-9
+                    stats["expectations_compared"] += 1
+                    stats["max_error_over_norm1"] = max(stats["max_error_over_norm1"], err / norm1)
+                    if err > bound:
+                        stats["failures"] += 1
+                        stats["max_excess_over_bound"] = max(stats["max_excess_over_bound"], err - bound)
+                        viol(chk, "trim_trivial_qubits:near-grid-angle:expectation-moved-beyond-documented-tolerance:%s" % circ["gates"][gi]["name"],
+                             "NUMERIC TAIL: %s(%s%+.0e) on qubit %d: |<op> - <op'>| = %.3g > 2*atol*||op||_1 = %.3g (atol=%g)" % (
+                                 circ["gates"][gi]["name"], "k=%d*2pi/8" % circ["gates"][gi]["k"], delta, q, err, bound, atol), case)
+    chk.part("numeric_tail_near_grid_angles", **stats)
+
+
+
 def run_trim(chk, rng):
     quick = chk.quick
     gens = [(2, "RecipesAll", "EntAll"), (3, "RecipesCore", "EntCore" if quick else "EntAll")]
@@ -636,6 +820,7 @@ def run_trim(chk, rng):
     if jobs:
         j0 = jobs[len(jobs) // 2]
         chk.sample({"trim": {"n": j0["n"], "gates": j0["gates"], "n2": j0["n2"], "removed": j0["trim"]}})
+    near_grid_tail(chk, circuits, rng)
 
 
 # ======================================================================================================
@@ -809,7 +994,7 @@ def replay(chk, rec):
         else:
             verdicts, results = tlc.judge("C14Taper", [r[0]], WD + "/replay", {"M": M})
             print("TLC certificate bits:", verdicts[1], [nm for b, nm in TAPER_BITS if verdicts[1] & b])
-            ok = (verdicts[1] % 256) == 0
+            ok = (verdicts[1] & TAPER_FAIL) == 0
             if ok and case.get("structure"):
                 print("(structure accepted; re-run the check for the coefficient contraction / numeric tail)")
     elif case["kind"] == "taper-handwritten":
@@ -819,7 +1004,7 @@ def replay(chk, rec):
         else:
             verdicts, results = tlc.judge("C14Taper", [r[0]], WD + "/replay", {"M": M})
             print("TLC certificate bits:", verdicts[1], [nm for b, nm in TAPER_BITS if verdicts[1] & b])
-            ok = (verdicts[1] % 256) == 0
+            ok = (verdicts[1] & TAPER_FAIL) == 0
     elif case["kind"] == "trim":
         r = trim_record(c2, 1, case["circ"])
         if r is None:
@@ -837,6 +1022,18 @@ def replay(chk, rec):
             verdicts, _ = tlc.judge("C14Truncate", [r[0]], WD + "/replay", {"Mode": '"judge"', "NMax": 5})
             print("n=%d eps=sqrt(%d)/64 kept %s of %d terms; TLC verdict bits: %s" % (case["n"], case["E"], r[0]["kept"], len(r[0]["terms"]), verdicts[1]))
             ok = not (verdicts[1] & 3)
+    elif case["kind"] == "trim-near-grid":
+        c3 = check.Check("C14", ["thorough"])
+        c3.known = []
+
+        class _One:            # replays exactly the recorded circuit (all deltas, first two rotations)
+            def sample(self, cand, k):
+                return [case["circ"]]
+        near_grid_tail(c3, [case["circ"]], _One())
+        for v in c3.violations:
+            print("  ", v[0], "|", str(v[1])[:300])
+        print(c3.cov["parts"]["numeric_tail_near_grid_angles"])
+        ok = not c3.violations
     elif case["kind"] == "truncate-numeric":
         from tangelo.toolboxes.operators import QubitOperator
         from openfermion.linalg import qubit_operator_sparse
